@@ -38,7 +38,7 @@ def gen_behaviours(tier, seed):
     stats["bfs_export"] = {"generated": r2["generated"], "distinct": r2["distinct"], "traces": len(systematic)}
     if quick:  # seeded sample of the systematic set (the thorough tier replays all of it)
         rnd = random.Random(seed)
-        systematic = rnd.sample(systematic, min(len(systematic), 450))
+        systematic = rnd.sample(systematic, min(len(systematic), 350))
         stats["bfs_export"]["sampled"] = len(systematic)
     behaviours = list(systematic)
     nsimtr = 0
